@@ -682,3 +682,32 @@ out:
 	c.Shard.Count("late_act_three_sessions", 1)
 	c.Shard.Eval("late-act-three")
 }
+
+// TestC11Debug runs one scripted session by seed (C11_ONLY_SEED), C11_REPEAT
+// times, and prints what got stuck, with the tail of the relay log. A
+// debugging aid, not a registered check.
+func TestC11Debug(t *testing.T) {
+	s := getenv("C11_ONLY_SEED")
+	if s == "" {
+		t.Skip("C11_ONLY_SEED not set")
+	}
+	var seed int64
+	fmt.Sscan(s, &seed)
+	n := 1
+	if r := getenv("C11_REPEAT"); r != "" {
+		fmt.Sscan(r, &n)
+	}
+	var wg sync.WaitGroup
+	for i := 0; i < n; i++ {
+		wg.Add(1)
+		go func() {
+			defer wg.Done()
+			r := c11Session(seed, 60*time.Second)
+			fmt.Printf("stuck=%q step=%s safety=%v script=%s\n", r.stuck, r.stuckStep, r.safety, r.script)
+			if r.stuck != "" {
+				fmt.Printf("  detail: %v\n", r.rep["relay_log_tail"])
+			}
+		}()
+	}
+	wg.Wait()
+}
